@@ -3,11 +3,20 @@
 import json, os
 HERE = os.path.dirname(os.path.dirname(os.path.abspath(__file__)))
 
+HIST = "deterministic simulation: seeded operation/fault histories vs reference model (history refinement)"
 CLAIMED = {
+ "C01": dict(engine="history:graph", design="DESIGN.md §2 C01",
+   text="Seeded search over Graph operation histories (both edge types, four index widths, u8 runs that fill the node and edge index space) executed in lock-step against a Vec-based reference multigraph with explicit per-node recency lists. After every operation the complete observation (counts, every weight and endpoint, find/contains/edges_connecting for all or sampled pairs, neighbors in order for directed graphs, incident edges, externals, whole-graph iterators both ways, detached walkers, raw first_edge/next_edge chains) is compared; after multi-removals the implementation's renumbering is learned from the (always unique) weights and checked against the documented swap rule. Injected faults: absent/stale/end() indices on every index-taking call, equal indices to index_twice_mut, index-limit exhaustion; a failing call must return exactly the documented None/Err/panic and leave the full observation identical. Exploration: clean batch = no sampled history disagreed.",
+   note="Trusts the reference model (sim/src/models/adj.rs) and its reading of the documentation; the order of edges()/edges_directed() is compared as a multiset (only neighbors order is documented); extend_with_edges/from_edges lists that would overflow the index type are not issued (behaviour unspecified).",
+   technique=HIST),
+ "C02": dict(engine="history:stable", design="DESIGN.md §2 C02",
+   text="Same engine as C01 on StableGraph, model keyed by stable index with vacancies: new indices are checked for legality (never a live index) and adopted; node_count/edge_count/node_bound/edge_bound and all iterators must describe the model's live set; failing try_* calls (missing, vacant or out-of-range endpoints, biased to land right after a removal so the free lists are non-empty; index-limit exhaustion in u8 runs) must leave the complete observation byte-identical; any panic on a valid call is a violation and the batch is run in two build profiles (release, and release with debug assertions + overflow checks) because the property says 'debug or release'. Exploration.",
+   note="Trusts the reference model; all iteration orders are compared as multisets (StableGraph documents none).",
+   technique=HIST),
  "C19": dict(engine="history:unionfind", design="DESIGN.md §2 C19",
    text="Seeded search over UnionFind call histories (all four index widths, u8 filled to its 256-element capacity) run in lock-step against a label-array partition model; after every call the full equivalence relation, the stability of class representatives (find / find_mut / try_* / into_labeling agree and compression changes nothing) and len are compared; out-of-range arguments and absurd try_reserve sizes are injected as faults and must give exactly the documented Err/panic with the partition unchanged. Exploration, not proof: a clean batch means no sampled history disagreed.",
    note="Trusts the label-array model (about 20 lines) and Vec's try_reserve returning Err for a request above isize::MAX. new_set beyond the index type's capacity is outside the property's domain and is not issued.",
-   technique="deterministic simulation: seeded operation/fault histories vs reference model (history refinement)"),
+   technique=HIST),
 }
 
 NOT_APPLICABLE = {
